@@ -99,7 +99,7 @@ def check(op, a, b, boost):
             # the boosted clause alone scores boost x the unboosted clause
             base = scores(s, la[1]())
             for k, v in sa.items():
-                if k in base and not close(v, base[k] * boost) and a not in (16, 17):
+                if k in base and not close(v, base[k] * boost) and a not in (16, 17, 21):      # (Every and span queries take no boost of their own)
                     return "%s [%s/%s] clause %s^%s scores %r for %s, unboosted %r" % (desc, lname, wn, la[0], boost, v, k, base[k])
     # layout independence without deletions
     for wn, _ in weightings():
